@@ -2,6 +2,7 @@ import Lemmas.TaskQueueLive
 import Lemmas.TaskQueueNew
 import Lemmas.TaskQueueEnv
 import Lemmas.TaskQueueGrow
+import Lemmas.TaskQueueSlice
 /-! # C15 — the task queue runs every submitted task exactly once before Shutdown returns
 
 Property theorems only.  The model is the threaded program `TQW.TStep` (Model/TaskQueue.lean): submitters, the `in`
@@ -273,7 +274,10 @@ theorem shutdown_returns_for_every_new_queue (ncpu : Nat) (opts : List TQNew.Opt
 /-! ### callers outside the contract: `Submit` after, or blocked at, `Shutdown` (Model/TaskQueueEnv.lean; script lines
 `late` and `shutx` of the forced area) — what the code does instead of an assumption -/
 
-/-- **a `Submit` that meets `Shutdown` is either accepted before the close or panics in its caller — never half**: once
+/-- **a `Submit` that meets `Shutdown` is either accepted before the close or panics in its caller** (the statement reads
+    off the guards of the rules, for every state, reachable or not: it records WHAT the caller layer says the code does —
+    the content is in the tie, where the `late`/`shutx`/`race` lines confront it with the real queue; a Submit is one
+    atomic "send completes" event in the model, so "blocked at the close" is the same state as "not yet sent"): once
     `Shutdown` has been called (`close(q.in)` done) the rule that accepts a task is not enabled, for callers outside and for
     tasks of the queue itself; the only thing a `Submit` call can then do is the caller-side panic "send on closed
     channel" (`submitClosed`), which is enabled exactly then and changes nothing but the count of such panics: the queue
@@ -303,27 +307,70 @@ theorem shutdown_returns_despite_late_submits (v : Variant) (c : Cfg) (hv : InDo
     (hK : ∀ i, (run i).callerPanics ≤ e.callerPanics + K) : (run (mu2 e.ts + K + 1)).ts.q.shut = 2 :=
   TQE.eshutdown_returns v c hv hw e h hs K run h0 hrun hK
 
-/-- **"tasks end" is needed, and exactly that** (the converse of `shutdown_returns`): `Shutdown` has not returned in any
-    reachable state in which a task is still inside `task()` — so a task that never ends keeps `Shutdown` waiting for
-    ever, along every run in which it stays running -/
+/-- **"tasks end" is needed** (the converse of `shutdown_returns`): take any run of the program from a reachable state
+    (every index a step of `TStep`); if task `t` is inside `task()` at every index — it never ends — then `Shutdown` has
+    returned at no index.  This is `shutdown_after_all_done` read contrapositively along the run (reachability of every
+    `run i` is derived from the steps); it adds no new invariant, it states the necessity of the hypothesis. -/
 theorem shutdown_waits_for_every_running_task (v : Variant) (c : Cfg) (hv : Sound v) (run : Nat → TS) (t : Nat)
-    (hreach : ∀ i, TReachable v c (run i)) (hnever : ∀ i, t ∈ runningOf (run i).ws) : ∀ i, (run i).q.shut ≠ 2 := by
+    (h0 : TReachable v c (run 0)) (hrun : ∀ i, TStep v c (run i) (run (i + 1)))
+    (hnever : ∀ i, t ∈ runningOf (run i).ws) : ∀ i, (run i).q.shut ≠ 2 := by
+  have hreach : ∀ i, TReachable v c (run i) := by
+    intro i
+    induction i with
+    | zero => exact h0
+    | succ i ih => exact TReachable.step _ _ ih (hrun i)
   intro i h2
   have := (shutdown_after_all_done v c hv (run i) (hreach i) (Or.inl h2)).2.1
   have hm := hnever i
   rw [this] at hm
   cases hm
 
-/-- **the order theorems are about backlogs of every size** (seeded ind6-c15-b / ind7-c15-b: a backlog that reorders when
-    it grows while partly drained): for an unbounded queue (`Depth` negative, the default) the backlog — a list without
-    any capacity in the model, as `append` makes it in the code — reaches EVERY length `N` in a reachable state of the
-    program as it is, with all of `tasks` full and `Shutdown` not called; and in every reachable state, whatever the
-    history of growth and drain, the pipeline read from the workers back to the input is `0, 1, …, nextId−1` -/
+/-- **non-vacuity of the order theorems over backlog growth** (seeded ind6-c15-b / ind7-c15-b concern a backlog that
+    reorders when it grows while partly drained): for an unbounded queue (`Depth` negative, the default) the backlog
+    reaches EVERY length `N` in a reachable state of the program as it is, with all of `tasks` full and `Shutdown` not
+    called; the second conjunct is `fifo` again, restated for these states.  What this does NOT say: the backlog of the
+    model is a `List` (`backlog ++ [t]`, `b :: rest`), i.e. the Go slice surgery (`copy(backlog, backlog[1:])`, reslice,
+    capacity hint) is abstracted to its list meaning, so a reordering inside that surgery — or inside a ring buffer that
+    replaces it — is not expressible here and this theorem cannot fail for it; that part of the code is tied by the
+    forced one-worker order lines and the long drain-and-regrow stress lines only (ind6-b, ind7-b, own-14 are caught
+    there). -/
 theorem order_holds_at_every_backlog_size (c : Cfg) (hd : c.depth < 0) (hi : 1 ≤ c.inCap) :
     (∀ N, ∃ s, TReachable code c s ∧ s.q.backlog.length = N ∧ s.q.tq.length = c.workers ∧ s.q.shut = 0) ∧
     (∀ s, TReachable code c s →
       s.q.started ++ (s.q.tq ++ (liveBacklog s.q ++ (held s.q.pc ++ s.q.inq))) = List.range s.q.nextId) :=
   ⟨backlog_reaches_any_size c hd hi, fun s h => fifo code c code_inDomain.1 s h⟩
+
+/-! ### the backlog as the code has it: a Go slice (Lemmas/TaskQueueSlice.lean; audit finding M15-1) -/
+
+/-- **the slice surgery of `process()` is the list surgery of the model**: let a Go slice (backing array with spare
+    capacity, length) hold the backlog of a protocol state.  Then `backlog = append(backlog, task)` (in place, or into a
+    grown array), the dequeue of `case <-ready` (`tasks <- backlog[0]; copy(backlog, backlog[1:]); backlog[len-1] = nil;
+    backlog = backlog[:len-1]`) and the bounded branch (`…; backlog[len-1] = task`) leave a slice that holds the backlog of
+    the successor state of the rule `toBacklog` / `sendBacklog2` / `sendBacklog` of `TQ.next`, and hand to `tasks` exactly
+    the task the rule appends to `tq`.  So the order theorems (`fifo`, `fifo_single_worker`), proved about lists, hold of
+    the array the code manipulates, for every history of growth and drain.  (Not tied by a stream of its own: the slice is
+    private to the dispatcher goroutine; the forced one-worker order lines observe its effect.) -/
+theorem backlog_slice_refines_model (c : Cfg) (s s' : S) (sl : TQSlice.Slice) (grow : Nat) (h : TQSlice.Holds sl s.backlog) :
+    (next c s .toBacklog = some s' → ∀ t, s.pc = .got t → TQSlice.Holds (TQSlice.push sl t grow) s'.backlog) ∧
+    (next c s .sendBacklog2 = some s' →
+      TQSlice.Holds (TQSlice.popFront sl).2 s'.backlog ∧ ∃ b, (TQSlice.popFront sl).1 = some b ∧ s'.tq = s.tq ++ [b]) ∧
+    (next c s .sendBacklog = some s' → ∀ t, s.pc = .sb t →
+      TQSlice.Holds (TQSlice.rotate sl t).2 s'.backlog ∧ ∃ b, (TQSlice.rotate sl t).1 = some b ∧ s'.tq = s.tq ++ [b]) :=
+  TQSlice.slice_refines_rules c s s' sl grow h
+
+/-- CONTRAST (seeded ind6-c15-b / ind7-c15-b): a ring buffer in place of the slice, whose `grow` copies `slots[:head]`
+    before `slots[head:]`.  Backlog 0–3 in a ring of four, 0 and 1 handed off (the head moves), 4 and 5 wrap around, 6 forces
+    the growth: with the correct `grow` the tasks leave in submission order, with the rotated one 4 and 5 overtake 2 and 3 —
+    the refinement above fails for that structure, and with one worker so does the order clause -/
+theorem contrast_rotated_ring_grow_breaks_order :
+    let r0 : TQSlice.Ring := { slots := List.replicate 4 none, head := 0, count := 0 }
+    let drained := ((TQSlice.pushAll r0 [0, 1, 2, 3] false).pop.2).pop.2
+    (TQSlice.pushAll drained [4, 5, 6] false).view = [2, 3, 4, 5, 6] ∧
+    (TQSlice.pushAll drained [4, 5, 6] true).view = [4, 5, 2, 3, 6] :=
+  TQSlice.contrast_rotated_grow_breaks_order
+
+/-- non-vacuity of `backlog_slice_refines_model`: a slice with two spare slots holding the backlog `[7, 8]` -/
+example : TQSlice.Holds { arr := [some 7, some 8, none, none], len := 2 } [7, 8] := ⟨[none, none], rfl, rfl⟩
 
 /-- the code as it is lies in both classes -/
 theorem code_is_in_domain : InDomain code ∧ Sound code := ⟨code_inDomain, code_inDomain.1⟩
